@@ -182,8 +182,10 @@ func cliCheck(res *sched.Result, w *cliWorld) (finds []explore.Finding, outcome 
 					add("C11,C10/early-timeout", "%s: timeout reported after %d transmissions, the limit of %d retransmissions was not used up; %s", name, len(writes), n, w.logString())
 				} else if !sc.DupIDs {
 					base := inst.StartTime
-					if n > 0 {
-						base = writes[n].Time
+					for _, wr := range writes {
+						if wr.Thr != inst.Thr {
+							base = wr.Time // last re-transmission
+						}
 					}
 					if dl := base.Add(time.Duration(n+1) * inst.RTO); !hr.Time.After(dl) {
 						add("C11/early-timeout", "%s: timeout at %v, not after the last deadline %v; %s", name, hr.Time.Sub(cliT0), dl.Sub(cliT0), w.logString())
@@ -216,16 +218,25 @@ func cliCheck(res *sched.Result, w *cliWorld) (finds []explore.Finding, outcome 
 			if len(writes) > n+1 {
 				add("C11/too-many-writes", "%s: %d transmissions, limit %d retransmissions; %s", name, len(writes), n, w.logString())
 			}
-			for k := 0; k+1 < len(writes); k++ {
-				base := writes[k].Time
-				if k == 0 {
-					base = inst.StartTime
+			// timing: transmission 0 belongs to the caller's thread (deadline 0 runs from the clock value Start
+			// read, whenever that thread gets to its write); re-transmissions are made by the collector's thread
+			var retx []obsRec
+			seenInitial := false
+			for _, wr := range writes {
+				if !seenInitial && wr.Thr == inst.Thr {
+					seenInitial = true
+					continue
 				}
+				retx = append(retx, wr)
+			}
+			base := inst.StartTime
+			for k, wr := range retx {
 				dl := base.Add(time.Duration(k+1) * inst.RTO)
-				if !writes[k+1].Time.After(dl) {
-					add("C11/early-retransmit", "%s: transmission %d at %v, but transmission %d (at %v) may only be repeated after %v (rto %v); %s", name, k+1, writes[k+1].Time.Sub(cliT0), k, base.Sub(cliT0), dl.Sub(cliT0), inst.RTO, w.logString())
+				if !wr.Time.After(dl) {
+					add("C11/early-retransmit", "%s: re-transmission %d at %v, but the previous transmission (at %v) may only be repeated after %v (rto %v); %s", name, k+1, wr.Time.Sub(cliT0), base.Sub(cliT0), dl.Sub(cliT0), inst.RTO, w.logString())
 					break
 				}
+				base = wr.Time
 			}
 			// nothing more is written once the transaction has ended
 			end := -1
